@@ -313,6 +313,43 @@ func runC11(r *ev.Run, thorough bool) int {
 			r.Sample(map[string]interface{}{"task": t, "outcome": res.Out})
 		}
 	})
+	// client level: sessions of real tcpclv4 Clients over in-memory pipes
+	var ctasks []c11ClientTask
+	mrus := []uint64{1, 7, 100, 1000, 4096, 1 << 20, 1<<20 + 1, 1 << 40, 1<<64 - 1}
+	for _, m := range mrus {
+		pay := 300
+		if m == 1 {
+			pay = 20
+		}
+		ctasks = append(ctasks, c11ClientTask{Kind: "mru", MRU: m, Pay: pay})
+	}
+	ctasks = append(ctasks, c11ClientTask{Kind: "mru", MRU: 100, Pay: 5000}, c11ClientTask{Kind: "pair", N: 2, Pay: 30}, c11ClientTask{Kind: "pair", N: 3, Pay: 30}, c11ClientTask{Kind: "pair", N: 5, Pay: 2000})
+	craw := make([][]byte, len(ctasks))
+	for i, t := range ctasks {
+		craw[i] = mustJSON(t)
+	}
+	var nClient int64
+	runPool("c11client", 4, craw, func(i int, pr poolResult) {
+		mu.Lock()
+		defer mu.Unlock()
+		if pr.Crashed {
+			key := "C11/client-crashed"
+			if strings.Contains(pr.Stderr, "watchdog") {
+				key = "C11/hang:client"
+			}
+			r.Violation(key, "client", "worker died: "+lastLines(pr.Stderr, 10), ctasks[i])
+			return
+		}
+		var res c11Result
+		_ = json.Unmarshal(pr.Res, &res)
+		nClient++
+		validated++
+		outs["client|"+res.Out] = true
+		if res.Key != "" {
+			r.Violation(res.Key, "client", res.Desc, ctasks[i])
+		}
+	})
+	r.Add("client_level_sessions", nClient)
 	r.Add("oneway_L_m_pairs", nOne)
 	r.Add("oneway_pairs_where_m_divides_L", nDiv)
 	r.Add("fault_scenarios", nFault)
@@ -327,7 +364,7 @@ func runC11(r *ev.Run, thorough bool) int {
 		"traces_validated_against_impl": validated,
 		"evaluations":                   len(tasks),
 		"distinct_nontrivial":           len(outs),
-		"rule":                          fmt.Sprintf("real TransferManagers joined by the harness acting as the network: every (encoded length L, segment size m) for %d consecutive L and all 1<=m<=L+2 plus sizes around 2^20; fault scenarios (peer silent / refuses with each of the 7 reason codes / session closed / acknowledges short / acknowledges zero) at every segment index on a 6x6 (L,m) grid with the acknowledgement timeout driven by the virtual clock; all interleavings (merges) of the segments of two concurrent transfers (same direction and opposite directions) with 2 and 3 segments each, crossed with all interleavings of the acknowledgements; states = distinct scenarios, transitions = executions", nPay),
+		"rule":                          fmt.Sprintf("real TransferManagers joined by the harness acting as the network: every (encoded length L, segment size m) for %d consecutive L and all 1<=m<=L+2 plus sizes around 2^20; fault scenarios (peer silent / refuses with each of the 7 reason codes / session closed / acknowledges short / acknowledges zero) at every segment index on a 6x6 (L,m) grid with the acknowledgement timeout driven by the virtual clock; all interleavings (merges) of the segments of two concurrent transfers (same direction and opposite directions) with 2 and 3 segments each, crossed with all interleavings of the acknowledgements; client level: real tcpclv4 Clients over in-memory pipes against a scripted peer announcing segment MRUs %v (every segment within the announced size, flags, content) and pairs of Clients exchanging 2, 3 and 5 bundles whose reception reports are read only after all are queued; states = distinct scenarios, transitions = executions", nPay, mrus),
 	}, []string{"real TCP / WebSocket scheduling is not modelled: the harness delivers messages in every order a reliable in-order-per-flow link can produce", "quiescence of the receiver is established by an unexpected message pushed behind the transfer (its error answer marks the end)", strings.TrimSpace("vtime shim drives the 10 s acknowledgement timeout")})
 }
 
